@@ -13,6 +13,9 @@ CLAIMED = {
 }
 CLAIMED["C02"] = ("4/C02", "The real MessageSchema.load is executed on lines built from symbolic integers rendered to text (in-range core per command; single-fault scheme with out-of-range integers or non-numeric class texts at each numeric position; field counts 0..8; three terminators) and z3 decides on every path that accept <=> the predicate spelled in the property, that accepted lines decode to the spelled values and that rejections are ValidationError (InvalidMessageError through Gateway.listen) and nothing else. Path tree exhausted within the bounds; bounded model checking.")
 CLAIMED["C04"] = ("4/C04", "One symbolic step of the real Gateway.listen / incoming handlers from every built pre-state (symbolic registry shape, symbolic node/child/type ids, symbolic payload) is compared with a reference model written from the property statement: outcome (yielded fields or error class naming the missing id), and the complete registry after the step; plus 2-3 line histories through one listen() generator for exactly-once, in-order yields. One step from an arbitrary built state is the inductive step for histories of any length within the shape bound. Path tree exhausted; bounded model checking.")
+CLAIMED["C06"] = ("4/C06", "One symbolic step of the real receive path from every built pre-state (registry shape, reboot/sleeping flags, metric flag, stored value present/absent, version known or unknown) for every command and the listed internal types is compared with the write list of a reference model written from the statement (id response, M/I, local time via an independent days-from-civil formula over a symbolic clock stub, stored value, discover broadcast, reboot, version query rule), including that nothing is parked in either buffer. Path tree exhausted; bounded model checking.")
+CLAIMED["C10"] = ("4/C10", "Inductive step from symbolic pre-states (node unknown / known / known with child; outstanding-request markers for two nodes symbolic) with one event of 11 kinds and a symbolic write-fault bit, plus 2-3 event episode histories; writes, outcome, registry and the set of outstanding requests are compared with a model written from the statement for all five versions. Path tree exhausted; bounded model checking.")
+CLAIMED["C11"] = ("4/C11", "The real id-request handler is run on registries of 0..3(4) nodes whose ids are symbolic in [0,255] (so every subset shape of that size is covered by the solver) with symbolic request addressing; z3 decides freshness, range, registration-before-write, response addressing, the too-many-nodes clause, and distinctness over two requests. Path tree exhausted; bounded model checking.")
 PENDING = {
 }
 
